@@ -11,9 +11,9 @@ func init() {
 	checkDefs["C16"] = &checkDef{level: "model_checking", pkgs: []string{filePkg}, run: func(cr *CheckRun) {
 		opts := defaultOpts()
 		opts.Witness = true
-		maxk := 3
+		maxk := 4
 		if cr.Tier == "thorough" {
-			maxk = 4
+			maxk = 5
 		}
 		var jobs []Job
 		for k := 1; k <= maxk; k++ {
@@ -43,9 +43,9 @@ func init() {
 			}
 		}
 		cr.states, cr.trans = st, tr
-		cr.explanation = "send/Send/countLines/GetMessages/IgnoreMessages/UnignoreMessages/NewFileStorage executed from SSA over a line-structured file model; message payload sizes are symbolic (line length = exact JSON/base64 length term), bufio.Scanner follows its documented token-size rule; writers alternate between two handles; every message the reader accepts (< 1 MiB line) must get offset = position."
+		cr.explanation = "send/Send/countLines/GetMessages/IgnoreMessages/UnignoreMessages/NewFileStorage executed from SSA over a line-structured file model; message payload sizes are symbolic (line length = exact JSON/base64 length term), bufio.Scanner follows its documented token-size rule; every assignment of the messages to two handles; every message the reader accepts (< 1 MiB line) must get offset = position."
 		cr.bounds["messages"] = fmt.Sprintf("1..%d messages per log, payload length symbolic in [0, 700000) bytes (lines the 1 MiB reader accepts)", maxk)
-		cr.bounds["writers"] = "two handles, alternating sends (the lock is held for the whole count-then-append, so sends do not interleave below that granularity in the model)"
+		cr.bounds["writers"] = "two handles, every pattern of who sends which message (the lock is held for the whole count-then-append, so sends do not interleave below that granularity in the model)"
 		cr.bounds["outside"] = "kernel flock/O_APPEND semantics, disk-full, true goroutine/process concurrency below the granularity of one send, more messages per log"
 		cr.assume = append(cr.assume, "file = sequence of lines; Fprintln appends exactly one line atomically", "bufio.Scanner stops (ErrTooLong) at the first line with len+1 > max token size", "random UUIDs are pairwise distinct")
 		cr.trusted = append(cr.trusted, "gosx SSA->SMT executor", "z3 4.8.12", "file/scanner/lock stubs in engine/intrin_io.go")
